@@ -30,6 +30,8 @@ fn gen_cases(rng: &mut Rng, tier: Tier) -> Vec<Value> {
         .collect::<Vec<_>>()
         .into_iter()
         .chain(history_cases(rng, tier))
+        // S61 (repaired): the group tag of a tour survives a refresh of the tour's state - a deterministic scenario
+        .chain(std::iter::once(json!({"k": "group_refresh"})))
         .collect()
 }
 
@@ -136,7 +138,66 @@ impl InsertionEvaluator for Observing {
     }
 }
 
+/// two jobs of one group, two vehicles; the first tour serves job a; is job b refused for the second tour - before and after the
+/// goal refreshes the state of the first tour (as the solution repair does after it took a job out of a tour)?
+fn exec_group_refresh() -> Value {
+    use vrp_core::construction::features::{JobGroupDimension, create_group_feature};
+    use vrp_core::construction::heuristics::MoveContext;
+    use vrp_core::models::solution::Activity;
+    use vrp_core::prelude::*;
+    let job = |id: &str, loc: usize| {
+        SingleBuilder::default()
+            .id(id)
+            .dimension(|d| {
+                d.set_job_group("g1".to_string());
+            })
+            .location(loc)
+            .unwrap()
+            .build_as_job()
+            .unwrap()
+    };
+    let (a, b) = (job("a", 1), job("b", 2));
+    let vehicle = |id: &str| VehicleBuilder::default().id(id).add_detail(VehicleDetailBuilder::default().set_start_location(0).build().unwrap()).build().unwrap();
+    let m = vec![0., 1., 1., 1., 0., 1., 1., 1., 0.];
+    let transport = Arc::new(SimpleTransportCost::new(m.clone(), m).unwrap());
+    let goal = GoalContextBuilder::with_features(&[
+        MinimizeUnassignedBuilder::new("min-unassigned").build().unwrap(),
+        create_group_feature("group", 2, ViolationCode(1)).unwrap(),
+    ])
+    .unwrap()
+    .build()
+    .unwrap();
+    let problem = Arc::new(
+        ProblemBuilder::default()
+            .add_jobs(vec![a.clone(), b.clone()].into_iter())
+            .add_vehicles(vec![vehicle("v1"), vehicle("v2")].into_iter())
+            .with_goal(goal)
+            .with_transport_cost(transport)
+            .build()
+            .unwrap(),
+    );
+    let mut ctx = InsertionContext::new(problem.clone(), quiet_env());
+    let actors = problem.fleet.actors.clone();
+    let mut r1 = ctx.solution.registry.get_route(&actors[0]).unwrap();
+    r1.route_mut().tour.insert_last(Activity::new_with_job(a.to_single().clone()));
+    ctx.solution.routes.push(r1);
+    ctx.solution.required.retain(|j| *j != a);
+    ctx.solution.unassigned.retain(|j, _| *j != a);
+    let r2 = ctx.solution.registry.get_route(&actors[1]).unwrap();
+    ctx.solution.routes.push(r2);
+    problem.goal.accept_solution_state(&mut ctx.solution);
+    let refused = |ctx: &InsertionContext| problem.goal.evaluate(&MoveContext::route(&ctx.solution, &ctx.solution.routes[1], &b)).is_some();
+    let before = refused(&ctx);
+    let _ = ctx.solution.routes[0].route_mut(); // a mutable access marks the tour stale
+    problem.goal.clone().accept_route_state(&mut ctx.solution.routes[0]);
+    let after = refused(&ctx);
+    json!({"refused_before_refresh": before, "refused_after_refresh": after})
+}
+
 fn exec(case: &Value) -> Value {
+    if case["k"] == "group_refresh" {
+        return exec_group_refresh();
+    }
     if case["k"] == "history" {
         return exec_history(case);
     }
